@@ -1,6 +1,9 @@
 package workers
 
 import (
+	"sync"
+	http2 "github.com/dgrr/http2"
+	"os"
 	"bytes"
 	"fmt"
 	"math/rand"
@@ -30,8 +33,170 @@ func TestC07(t *testing.T) {
 			continue
 		}
 		r.Progress(id, "")
+		switch vf.Hash("c07-family", id) % 8 {
+		case 0:
+			c07CancelRace(r, t, id, r.Rand(id))
+			continue
+		case 1:
+			c07RoundTrip(r, t, id, r.Rand(id))
+			continue
+		}
 		c07Scenario(r, t, id, r.Rand(id))
 	}
+}
+
+// c07CancelRace: several uploads share a tight connection window; one of them is given stream credit and, a few virtual
+// microseconds later, cancelled by its caller - while the write loop may be between taking the next chunk out of the
+// windows and sending it. Whatever became of that chunk, the bytes the server has granted and not received are still
+// there for the other uploads: at quiescence none of them may be stuck with both of its windows open (by the server's
+// count), and once the connection window is opened wide every one of them arrives whole.
+func c07CancelRace(r *vf.Run, t *testing.T, id string, rng *rand.Rand) {
+	k := 3 + rng.Intn(3)
+	w0 := int64([]int{0, 100, 1000}[rng.Intn(3)])
+	sizes := make([]int, k)
+	modes := make([]int, k)
+	bodies := make([][]byte, k)
+	for i := range sizes {
+		sizes[i] = 30000 + rng.Intn(40000)
+		modes[i] = 1 + rng.Intn(3)
+		bodies[i] = make([]byte, sizes[i])
+		rng.Read(bodies[i])
+	}
+	delay := time.Duration(rng.Intn(120000)) * time.Nanosecond
+	replay := map[string]any{"family": "cancel-race", "uploads": k, "initial_window": w0, "sizes": sizes, "modes": modes, "cancel_after_ns": delay.Nanoseconds()}
+	failed := false
+	fail := func(rule, detail string) {
+		if !failed {
+			r.Fail("C07."+rule, id, detail, nil, replay)
+		}
+		failed = true
+	}
+	res := rt.RunBubble(t, id, 60*time.Second, func() {
+		e := rt.NewClientEnv(id, rt.ClientOpts{PeerSettings: []wire.Setting{{ID: 4, Val: uint32(w0)}}})
+		if e.HandshakeErr != nil {
+			fail("handshake", e.HandshakeErr.Error())
+			return
+		}
+		calls := make([]*rt.Call, k)
+		for i := 0; i < k; i++ {
+			i := i
+			tag := fmt.Sprintf("%s.%d", id, i)
+			calls[i] = e.Do(tag, func(req *fasthttp.Request) {
+				req.SetRequestURI("https://up.example/" + tag)
+				req.Header.SetMethod("POST")
+				req.Header.Add("x-vtag", tag)
+				switch modes[i] {
+				case 1:
+					req.SetBody(bodies[i])
+				case 2:
+					req.SetBodyStream(&slowReader{b: bodies[i], chunk: 16384}, len(bodies[i]))
+				case 3:
+					req.SetBodyStream(&slowReader{b: bodies[i], chunk: 16384}, -1)
+				}
+			})
+			rt.Wait()
+		}
+		streamOf := map[int]uint32{}
+		for _, s := range e.RequestsSeen() {
+			tag, _ := s.Get("x-vtag")
+			var idx int
+			fmt.Sscanf(tag[len(id)+1:], "%d", &idx)
+			streamOf[idx] = s.Stream
+		}
+		if len(streamOf) != k {
+			fail("request-missing", fmt.Sprintf("%d uploads started, %d request streams arrived", k, len(streamOf)))
+			e.Finish()
+			return
+		}
+		// the server's own count of what it has granted and received
+		connGranted, streamGranted := int64(65535), map[uint32]int64{}
+		for i := 0; i < k; i++ {
+			streamGranted[streamOf[i]] = w0
+		}
+		received := func() (conn int64, per map[uint32]int64, ended map[uint32]bool) {
+			per, ended = map[uint32]int64{}, map[uint32]bool{}
+			for _, f := range e.P.Frames() {
+				if f.Type == wire.TData {
+					conn += int64(f.Len)
+					per[f.Stream] += int64(f.Len)
+					ended[f.Stream] = ended[f.Stream] || f.EndStream
+				}
+			}
+			return
+		}
+		grant := func(stream uint32, n int64) {
+			if stream == 0 {
+				connGranted += n
+			} else {
+				streamGranted[stream] += n
+			}
+			e.P.Write(rt.WindowUpdate(stream, uint32(n)))
+		}
+		victim := streamOf[0]
+		grant(victim, 1<<20)
+		how := rng.Intn(3)
+		replay["victim_ended_by"] = []string{"its caller (Cancel)", "the server (complete early response)", "the server (RST_STREAM)"}[how]
+		if os.Getenv("VERIF_DEBUG_POINTS") != "" {
+			fmt.Printf("CANCELRACE %s how=%d delay=%v granted at %v\n", id, how, delay, time.Now().UnixNano()%1000000000)
+		}
+		go func() {
+			time.Sleep(delay)
+			switch how {
+			case 0:
+				e.C.Cancel(calls[0].Ctx)
+			case 1:
+				// RFC 7540 8.1: a server may answer before it has the whole request
+				e.P.Write(rt.Concat(rt.HeaderFrames(victim, e.P.EncodeBlock([]F{{Name: ":status", Value: "413"}}, nil), nil, -1, nil, true)))
+			case 2:
+				e.P.Write(rt.RstStream(victim, uint32([]int{0, 8, 11}[rng.Intn(3)])))
+			}
+		}()
+		rt.Wait()
+		time.Sleep(time.Millisecond)
+		rt.Wait()
+		for i := 1; i < k; i++ {
+			grant(streamOf[i], 1<<20)
+		}
+		rt.Wait()
+		stuck := func(where string) {
+			conn, per, _ := received()
+			if os.Getenv("VERIF_DEBUG_POINTS") != "" {
+				fmt.Printf("STUCKCHECK %s %s: conn received %d granted %d; per %v; sizes %v; streamGranted %v\n", id, where, conn, connGranted, per, sizes, streamGranted)
+			}
+			for i := 1; i < k; i++ {
+				sid := streamOf[i]
+				if owed := int64(sizes[i]) - per[sid]; owed > 0 && streamGranted[sid]-per[sid] > 0 && connGranted-conn > 0 {
+					fail("stalled-with-open-windows", fmt.Sprintf("%s: upload on stream %d still owes %d bytes while its window is %d and the connection window is %d by the server's count, and the client is quiescent; upload on stream %d was ended %v after it had been given stream credit, having sent %d of %d bytes", where, sid, owed, streamGranted[sid]-per[sid], connGranted-conn, victim, delay, per[victim], sizes[0]))
+					return
+				}
+			}
+		}
+		stuck("after the cancel, connection window as it was")
+		if conn, per, _ := received(); conn > connGranted || per[victim] > streamGranted[victim] {
+			fail("window-exceeded", fmt.Sprintf("the client sent %d bytes on the connection (granted %d), %d on the cancelled stream (granted %d)", conn, connGranted, per[victim], streamGranted[victim]))
+		}
+		grant(0, 1<<24)
+		rt.Wait()
+		stuck("after the connection window was opened wide")
+		seen := map[uint32]*rt.SeenRequest{}
+		for _, s := range e.RequestsSeen() {
+			seen[s.Stream] = s
+		}
+		for i := 1; i < k && !failed; i++ {
+			s := seen[streamOf[i]]
+			if s == nil || s.EndStream != 1 || !bytes.Equal(s.Body, bodies[i]) {
+				got, es := -1, 0
+				if s != nil {
+					got, es = len(s.Body), s.EndStream
+				}
+				fail("upload-incomplete", fmt.Sprintf("upload %d on stream %d: %d of %d bytes arrived, END_STREAM seen %d times, although both of its windows are open", i, streamOf[i], got, sizes[i], es))
+			}
+		}
+		r.Inc("cancel_race_cases", 1)
+		e.Finish()
+	})
+	c01Outcome(r, id, res, nil, replay, "C07")
+	r.Eval(vf.Hash("cancel-race", k, w0, modes), true)
 }
 
 func c07Scenario(r *vf.Run, t *testing.T, id string, rng *rand.Rand) {
@@ -369,4 +534,181 @@ func c07Scenario(r *vf.Run, t *testing.T, id string, rng *rand.Rand) {
 	if r.WantSample() {
 		r.Sample(map[string]any{"case": id, "uploads": k, "server_initial_window": w0, "sizes": sizes, "body_modes": modes, "action_kinds": kinds})
 	}
+}
+
+// c07RoundTrip: the cancel race at RoundTrip level (HostClient + ConfigureClient over TLS), where a request that has been
+// answered is handed back to its caller at once: 3-5 uploads share the server's initial connection window; the first is
+// given stream credit and, a few virtual microseconds later, a complete early answer (or RST_STREAM, or its caller's
+// timeout is short). The write loop may have taken that upload's next chunk out of the windows already. The server
+// then opens the other streams: by its own count none of them may be stuck with both windows open, and with the
+// connection window opened wide every one of them must arrive whole and be answered.
+func c07RoundTrip(r *vf.Run, t *testing.T, id string, rng *rand.Rand) {
+	k := 3 + rng.Intn(3)
+	w0 := int64([]int{0, 100, 1000}[rng.Intn(3)])
+	sizes := make([]int, k)
+	modes := make([]int, k)
+	bodies := make([][]byte, k)
+	for i := range sizes {
+		sizes[i] = 30000 + rng.Intn(40000)
+		modes[i] = 1 + rng.Intn(3)
+		bodies[i] = make([]byte, sizes[i])
+		rng.Read(bodies[i])
+	}
+	delay := time.Duration(rng.Intn(120000)) * time.Nanosecond
+	how := rng.Intn(2)
+	replay := map[string]any{"family": "roundtrip-early-answer", "uploads": k, "initial_window": w0, "sizes": sizes, "modes": modes, "answer_after_ns": delay.Nanoseconds(), "victim_ended_by": []string{"a complete early response", "RST_STREAM"}[how]}
+	failed := false
+	fail := func(rule, detail string) {
+		if !failed {
+			r.Fail("C07."+rule, id, detail, nil, replay)
+		}
+		failed = true
+	}
+	http2.VerifSetPoolHook(func(kind string, obj any, acquire bool) bool {
+		poisonHook(kind, obj, acquire)
+		return kind == "clientctx" && !acquire // a pooled Ctx owns a timer of the bubble it was made in
+	})
+	defer http2.VerifSetPoolHook(poisonHook)
+	res := rt.RunBubble(t, id, 90*time.Second, func() {
+		env, err := rt.NewRTEnvWith(id, http2.ClientOpts{MaxResponseTime: 30 * time.Second}, []wire.Setting{{ID: 3, Val: 100}, {ID: 4, Val: uint32(w0)}}, func(e *rt.RTEnv) { e.NoConnGrant = true })
+		if err != nil {
+			fail("configure-client", err.Error())
+			return
+		}
+		defer env.Close()
+		type call struct {
+			done bool
+			err  error
+			res  *fasthttp.Response
+		}
+		var mu sync.Mutex
+		calls := make([]*call, k)
+		for i := 0; i < k; i++ {
+			i := i
+			c := &call{res: &fasthttp.Response{}}
+			calls[i] = c
+			tag := fmt.Sprintf("%s.%d", id, i)
+			go func() {
+				req := &fasthttp.Request{}
+				req.SetRequestURI("https://h2v.example/" + tag)
+				req.Header.SetMethod("POST")
+				req.Header.Add("x-vtag", tag)
+				switch modes[i] {
+				case 1:
+					req.SetBody(bodies[i])
+				case 2:
+					req.SetBodyStream(&slowReader{b: bodies[i], chunk: 16384}, len(bodies[i]))
+				case 3:
+					req.SetBodyStream(&slowReader{b: bodies[i], chunk: 16384}, -1)
+				}
+				_, err := env.Client.RoundTrip(env.HC, req, c.res)
+				mu.Lock()
+				c.done, c.err = true, err
+				mu.Unlock()
+			}()
+			rt.Wait()
+		}
+		conns := env.Conns()
+		if len(conns) != 1 {
+			fail("connections", fmt.Sprintf("%d connections dialled, expected 1", len(conns)))
+			return
+		}
+		p := conns[0].P
+		streamOf := map[int]uint32{}
+		for _, s := range rt.SeenOn(p) {
+			tag, _ := s.Get("x-vtag")
+			var idx int
+			fmt.Sscanf(tag[len(id)+1:], "%d", &idx)
+			streamOf[idx] = s.Stream
+		}
+		if len(streamOf) != k {
+			fail("request-missing", fmt.Sprintf("%d uploads started, %d request streams arrived", k, len(streamOf)))
+			return
+		}
+		connGranted, streamGranted := int64(65535), map[uint32]int64{}
+		for i := 0; i < k; i++ {
+			streamGranted[streamOf[i]] = w0
+		}
+		received := func() (conn int64, per map[uint32]int64) {
+			per = map[uint32]int64{}
+			for _, f := range p.Frames() {
+				if f.Type == wire.TData {
+					conn += int64(f.Len)
+					per[f.Stream] += int64(f.Len)
+				}
+			}
+			return
+		}
+		grant := func(stream uint32, n int64) {
+			if stream == 0 {
+				connGranted += n
+			} else {
+				streamGranted[stream] += n
+			}
+			p.Write(rt.WindowUpdate(stream, uint32(n)))
+		}
+		victim := streamOf[0]
+		grant(victim, 1<<20)
+		go func() {
+			time.Sleep(delay)
+			if how == 0 {
+				p.Write(rt.Concat(rt.HeaderFrames(victim, p.EncodeBlock([]F{{Name: ":status", Value: "413"}}, nil), nil, -1, nil, true)))
+			} else {
+				p.Write(rt.RstStream(victim, uint32([]int{0, 8, 11}[rng.Intn(3)])))
+			}
+		}()
+		rt.Wait()
+		time.Sleep(time.Millisecond)
+		rt.Wait()
+		for i := 1; i < k; i++ {
+			grant(streamOf[i], 1<<20)
+		}
+		rt.Wait()
+		stuck := func(where string) {
+			conn, per := received()
+			for i := 1; i < k; i++ {
+				sid := streamOf[i]
+				if owed := int64(sizes[i]) - per[sid]; owed > 0 && streamGranted[sid]-per[sid] > 0 && connGranted-conn > 0 {
+					fail("stalled-with-open-windows", fmt.Sprintf("%s: upload on stream %d still owes %d bytes while its window is %d and the connection window is %d by the server's count, and the client is quiescent; the upload on stream %d was ended by the server %v after it had been given stream credit (it had sent %d of %d bytes), and RoundTrip handed the request back to its caller", where, sid, owed, streamGranted[sid]-per[sid], connGranted-conn, victim, delay, per[victim], sizes[0]))
+					return
+				}
+			}
+		}
+		stuck("after the early answer, connection window as it was")
+		if conn, per := received(); conn > connGranted || per[victim] > streamGranted[victim] {
+			fail("window-exceeded", fmt.Sprintf("the client sent %d bytes on the connection (granted %d), %d on the answered stream (granted %d)", conn, connGranted, per[victim], streamGranted[victim]))
+		}
+		grant(0, 1<<24)
+		rt.Wait()
+		stuck("after the connection window was opened wide")
+		for _, s := range rt.SeenOn(p) {
+			if s.Stream == victim || s.EndStream == 0 {
+				continue
+			}
+			p.Write(rt.Concat(rt.HeaderFrames(s.Stream, p.EncodeBlock([]F{{Name: ":status", Value: "200"}}, nil), nil, -1, nil, true)))
+		}
+		rt.Wait()
+		mu.Lock()
+		for i := 1; i < k && !failed; i++ {
+			var got *rt.SeenRequest
+			for _, s := range rt.SeenOn(p) {
+				if s.Stream == streamOf[i] {
+					got = s
+				}
+			}
+			if got == nil || got.EndStream != 1 || !bytes.Equal(got.Body, bodies[i]) {
+				n := -1
+				if got != nil {
+					n = len(got.Body)
+				}
+				fail("upload-incomplete", fmt.Sprintf("upload %d on stream %d: %d of %d bytes arrived although both of its windows are open", i, streamOf[i], n, sizes[i]))
+			} else if !calls[i].done || calls[i].err != nil {
+				fail("upload-not-acknowledged", fmt.Sprintf("upload %d on stream %d arrived whole and was answered 200, but RoundTrip says done=%v err=%v", i, streamOf[i], calls[i].done, calls[i].err))
+			}
+		}
+		mu.Unlock()
+		r.Inc("roundtrip_early_answer_cases", 1)
+	})
+	c01Outcome(r, id, res, nil, replay, "C07")
+	r.Eval(vf.Hash("rt-early", k, w0, modes, how), true)
 }
